@@ -128,10 +128,11 @@ def prepare_string_for_hashing(
                 err.end,
                 f"{err.reason} in '{start_prefix}{obj_decoded[start:end]}{end_suffix}'. Please either pass ignore_encoding_errors=True or pass the encoding via encodings=['utf-8', '...']."
             ) from None
+    if ignore_string_case:
+        # fold the text itself: lower() is context sensitive (a final sigma), so the type prefix must not be part of it
+        obj = obj.lower()
     if not ignore_string_type_changes:
         obj = KEY_TO_VAL_STR.format(original_type, obj)
-    if ignore_string_case:
-        obj = obj.lower()
     return obj
 
 
